@@ -431,10 +431,12 @@ func (c *FnCtx) specCall(env *Env, x *ast.CallExpr) Val {
 			return mathInt(app(tb, v.T))
 		case "real":
 			v := c.eval(env, x.Args[0])
-			if _, isF := isFloat(v.Typ); isF && v.Typ != untypedInt {
-				return Val{T: app("fp.to_real", v.T), Typ: types.Typ[types.UntypedFloat]}
+			// real(x): the mathematical value of an integer or of a finite float, as an SMT Real
+			if fb, isF := isFloat(c.subst(v.Typ)); isF && v.Typ != untypedInt {
+				// through the order embedding of fpabs.go
+				return Val{T: c.f2rOf(v.T, fb), Typ: mathRealT}
 			}
-			return Val{T: app("to_real", v.T), Typ: types.Typ[types.UntypedFloat]}
+			return Val{T: app("to_real", v.T), Typ: mathRealT}
 		case "isNaN":
 			v := c.eval(env, x.Args[0])
 			return boolVal(app("fp.isNaN", v.T))
